@@ -266,11 +266,18 @@ def setup_worker():
 def gen_case(rng, tier):
     n = rng.choice([2, 2, 3])
     specs = [gen_spec(rng, i) for i in range(n)]
+    if rng.random() < 0.25:
+        # worker reuse under concurrency: some threads serve two requests in a row
+        k = n
+        for i in range(n):
+            if rng.random() < 0.6:
+                specs[i] = [specs[i], gen_spec(rng, k)]
+                k += 1
     cfg = {'debug': rng.random() < 0.5, 'B': rng.choice([64, 102400])}
     gran = 'line'
     if tier == 'thorough' and rng.random() < 0.25:
         gran = 'opcode'
-    est = 450 * n * (6 if gran == 'opcode' else 1)
+    est = 450 * sum(len(t) if isinstance(t, list) else 1 for t in specs) * (6 if gran == 'opcode' else 1)
     return {'threads': specs, 'cfg': cfg, 'gran': gran, 'plan': gen_plan(rng, est, n),
             'cold': rng.random() < 0.15}
 
@@ -311,18 +318,19 @@ def foreign_markers(text, own):
 def run_case(case):
     res = new_result()
     log = Log(case.get('_seed'))
-    specs = case['threads']
+    # a thread serves one request, or (worker reuse) a short list of requests one after the other
+    lists = [t if isinstance(t, list) else [t] for t in case['threads']]
     cfg = case['cfg']
     gran = case.get('gran', 'line')
-    n = len(specs)
-    alone = [served_alone(sp, cfg, gran) for sp in specs]
+    n = len(lists)
+    alone = [[served_alone(sp, cfg, gran) for sp in lst] for lst in lists]
     saved_tpl = None
     if case.get('cold'):
         from ombott import error_render
         saved_tpl = list(error_render._html_lns)
         del error_render._html_lns[:]
     app = new_app(cfg)
-    outs = [Outcome() for _ in range(n)]
+    outs = [[Outcome() for _ in lst] for lst in lists]
     inflight = set()
     overlap = [0]
     s = Sched(n, case['plan'], prefixes=PREFIXES, granularity=gran)
@@ -336,7 +344,8 @@ def run_case(case):
         def fn():
             inflight.add(i)
             try:
-                serve(app, specs[i], outs[i])
+                for j, sp in enumerate(lists[i]):
+                    serve(app, sp, outs[i][j])
             finally:
                 inflight.discard(i)
         return fn
@@ -346,11 +355,14 @@ def run_case(case):
         error_render._html_lns[:] = saved_tpl
     log('plan', case['plan']['mode'], 'executed', s.executed)
     for i in range(n):
-        sp = specs[i]
-        m = sp['m']
         if s.errors[i] is not None:
             raise HarnessError(f'thread {i} harness code raised {type(s.errors[i]).__name__}: {s.errors[i]}')
-        o = outs[i]
+    if any(len(lst) > 1 for lst in lists):
+        res['probes']['worker_thread_reused'] += 1
+    for i, j in [(i, j) for i in range(n) for j in range(len(lists[i]))]:
+        sp = lists[i][j]
+        m = sp['m']
+        o = outs[i][j]
         r = o.resp
         canon = canon_resp(r)
         log('thread', i, sp['kind'], m, r.status, digest(canon), digest(o.notes))
@@ -376,7 +388,7 @@ def run_case(case):
         if probs:
             violation(res, 'C08:malformed-response', f'thread {i} ({sp["kind"]} {m}): ' + '; '.join(probs))
         # served-alone equivalence
-        a_canon, a_notes, _ = alone[i]
+        a_canon, a_notes, _ = alone[i][j]
         if o.notes != a_notes:
             d = next((j for j, (x, y) in enumerate(zip(o.notes, a_notes)) if x != y), min(len(o.notes), len(a_notes)))
             violation(res, 'C08:reads-differ-from-alone',
@@ -404,7 +416,7 @@ def run_case(case):
                   'headerlist', 'set_cookie', 'default_error_handler', 'render'):
             res['probes']['switch_in:' + fn] += 1
     res['nontrivial'] = overlap[0] > 0
-    res['key'] = digest([specs, cfg, s.executed])
+    res['key'] = digest([lists, cfg, s.executed])
     res['digest'] = log.digest()
     exp = dict(case)
     exp['plan'] = s.explicit_plan()
@@ -416,6 +428,10 @@ def shrink_candidates(case):
     for p in simpler_plans(case['plan']):
         yield shrink.with_key(case, 'plan', p)
     th = case['threads']
+    for i, t in enumerate(th):
+        if isinstance(t, list) and len(t) > 1:
+            for keep in t:
+                yield shrink.with_key(case, 'threads', th[:i] + [keep] + th[i + 1:])
     if len(th) > 2:
         for i in range(len(th)):
             c = shrink.with_key(case, 'threads', th[:i] + th[i + 1:])
